@@ -268,9 +268,16 @@ class Options(object):
 
     def cases(self, block, tier):
         if 'unknown' in block:
-            for name in ('supportSmiV3', 'commaAtTheEndOfImports', 'SUPPORTINDEX', 'x', ''):
+            names = ('supportSmiV3', 'commaAtTheEndOfImports', 'SUPPORTINDEX', 'x', '')
+            for name in names:
                 for val in (True, 1, 'yes'):
                     yield {'unknown': name, 'val': val}
+            # several unknown names in one call, alone and next to known ones
+            import itertools as it
+            for k in (2, 3):
+                for combo in it.combinations(names[:4], k):
+                    for known in ([], ['supportSmiV1Keywords'], ['noCells', 'lowcaseIdentifier']):
+                        yield {'unknown': list(combo), 'val': True, 'known': known}
             return
         subs = sorted(sorted(s) for s in all_subsets())
         for s in subs[block['lo']:block['hi']]:
@@ -279,7 +286,10 @@ class Options(object):
     def run_case(self, case):
         if 'unknown' in case:
             try:
-                parserFactory(**{case['unknown']: case['val']})
+                names = case['unknown'] if isinstance(case['unknown'], list) else [case['unknown']]
+                opts = dict((n, case['val']) for n in names)
+                opts.update((k, True) for k in case.get('known', []))
+                parserFactory(**opts)
                 got = 'accepted'
             except error.PySmiError:
                 got = 'PySmiError'
@@ -287,7 +297,7 @@ class Options(object):
                 got = type(exc).__name__
             vs = []
             if got != 'PySmiError':
-                vs.append(('C17|options|unknown-option-%s' % got, repr(case)))
+                vs.append(('C17|options|unknown-option-%s%s' % (got, '|several' if isinstance(case['unknown'], list) else ''), repr(case)))
             return got, vs, 1
         S = frozenset(case['S'])
         try:
